@@ -368,6 +368,8 @@ class P(core.Prop):
         evs, snap = case['evs'], case['snap']
         # ddmin: remove chunks of halving size from the events, then from the snapshot; then simplify events
         # (candidates that are no longer histories Tor can emit come back as VSkip and are ignored)
+        for k in range(1, len(evs)):          # the shortest failing prefix first
+            yield dict(case, evs=evs[:k])
         if snap:
             yield dict(case, snap=[])
         if case['cons']:
